@@ -581,7 +581,7 @@ def tier_of(kind, tier, name, node):
     if heavy(node): return "x"
     if kind in ("c13s", "c13z", "c06s"):
         if isinstance(node, TraitLike) and len(node.methods) >= 2 and kind != "c13z": return "x"   # > 30 min
-        if isinstance(node, TraitLike) and node.methods and kind != "c13z": return "t"
+        if isinstance(node, TraitLike) and node.methods: return "t"
         if isinstance(node, Struct) and node.fields: return "t"
     if kind == "c13d" and isinstance(node, TraitLike) and node.methods: return "x"   # diff of trait definitions with methods: > 10 min
     if kind == "c06s" and isinstance(node, TraitLike) and len(node.methods) >= 2: return "x"
@@ -607,7 +607,7 @@ def emit():
                          'assert!(left == 0, "C13: enum schema reader did not consume the whole node");',
                          'assert!(crate::scmp::enum_same(&e2, &e), "C13: enum schema node read back differs from the one written");',
                          "std::mem::forget(e); std::mem::forget(e2);", 'kani::cover!(true, "reached end");']
-                mods["c13e"][tier].append("kproof!(%s_f%d, %d, {\n        %s\n    });" % (name, f, uwe, "\n        ".join(body)))
+                mods["c13e"]["t" if (f == 1 and tier == "q") else tier].append("kproof!(%s_f%d, %d, {\n        %s\n    });" % (name, f, uwe, "\n        ".join(body)))
             ctx = Ctx("a"); i = node.inst(ctx)
             body = ctx.decls() + ["let mut r = RefBuf2::new();"] + i.data["enum_ref"](0)
             body += ["let (e2, left) = enum_from(&r.b[..r.n], 0).unwrap();", 'assert!(left == 0, "C13: format-0 enum schema reader did not consume the whole node");',
